@@ -144,6 +144,24 @@ def run(ctx):
                     ctx.add('N5.remove-owner', path, loc(n), path == C.loop_path, 'release of an ID outside the driver loop')
                 elif m in ('contains', 'len', 'is_empty'):
                     ctx.ok('N5.read', path + '|' + m, loc(n))
+                elif m == 'retain' and path == C.loop_path:
+                    # a retain is the removals it amounts to (absx): accepted when, on every path of its arm, it removes named IDs only
+                    # - an element different from all of them is certainly kept; which IDs those are is N6's / C13's question
+                    import driver as drv
+                    wipes = named = 0
+                    for role, a in C.arms.items():
+                        if isinstance(a, dict) and any(x is n for x, _ in walk(a['body'])):
+                            for o in drv.arm_paths(C, role)[0]:
+                                for e in o.st.ev:
+                                    if e[0] == 'call' and e[3] is n:
+                                        if e[1].endswith('::clear'):
+                                            wipes += 1
+                                        elif e[1].endswith('::remove'):
+                                            named += 1
+                                        else:
+                                            wipes += 1      # left opaque: the predicate is not a function of equality tests
+                    ctx.add('N5.set-method', path + '|' + m, loc(n), named > 0 and wipes == 0,
+                            '`retain` on the in-use set does not amount to releasing named IDs only: IDs of other operations still outstanding can be released')
                 else:
                     ctx.fail('N5.set-method', path + '|' + m, loc(n), 'unexpected method `%s` on the in-use set' % m)
             # guard passed around as a whole (escapes the analysis)
